@@ -1,7 +1,7 @@
 //! Verification hooks, compiled only with `--cfg nucleo_verif`.
 //!
 //! Nothing in here is reachable in a normal build: the module declaration in
-//! `lib.rs` and the single call in `matrix.rs` are `#[cfg(nucleo_verif)]`.
+//! `lib.rs` and the calls in `matrix.rs` and `fuzzy_optimal.rs` are `#[cfg(nucleo_verif)]`.
 #![allow(missing_docs)]
 
 use std::cell::RefCell;
@@ -33,6 +33,47 @@ pub fn set_recording(on: bool) {
 
 pub fn take_extents() -> Vec<Extents> {
     EXTENTS.with(|e| std::mem::take(&mut *e.borrow_mut()))
+}
+
+thread_local! {
+    static MATRIX: RefCell<Vec<(u64, usize, usize)>> = const { RefCell::new(Vec::new()) };
+}
+
+/// (FNV-1a digest, number of rows, number of back-pointer cells) of every matrix the optimal matcher
+/// built (indices variant) since the last call
+pub fn take_matrices() -> Vec<(u64, usize, usize)> {
+    MATRIX.with(|m| std::mem::take(&mut *m.borrow_mut()))
+}
+
+/// Digest of what `fuzzy_match_optimal` left behind: the row offsets, the last row of the score matrix
+/// from its offset on, and the back-pointer cells it wrote.
+pub(crate) fn record_matrix(
+    row_offs: &[u16],
+    last_row: &[crate::matrix::ScoreCell],
+    cells: &[crate::matrix::MatrixCell],
+) {
+    if !RECORD.with(|r| *r.borrow()) {
+        return;
+    }
+    let mut h: u64 = 0xcbf29ce484222325;
+    let mut eat = |b: u8| {
+        h ^= b as u64;
+        h = h.wrapping_mul(0x100000001b3);
+    };
+    for &o in row_offs {
+        eat(o as u8);
+        eat((o >> 8) as u8);
+    }
+    for c in last_row {
+        eat(c.score as u8);
+        eat((c.score >> 8) as u8);
+        eat(c.consecutive_bonus);
+        eat(c.matched as u8);
+    }
+    for c in cells {
+        eat(c.0);
+    }
+    MATRIX.with(|m| m.borrow_mut().push((h, row_offs.len(), cells.len())));
 }
 
 pub(crate) fn record_extents(e: Extents) {
